@@ -12,7 +12,8 @@ Code modelled:
   `Success` removes it and puts `HeadTasks` in front;
 * `taskHandleEnableKubernetesBindings` / `EnableKubernetesBindings` — the loop over the bindings with a
   fault sequence for `AddMonitor` (a failed attempt is retried as a whole); on success one Synchronization `HookRun` task per binding, in binding
-  order, as head tasks; `taskHandleHookRun` — the skip rules for Synchronization (v0, flag false), the
+  order, as head tasks; `taskHandleHookRun` — the skip rules for Synchronization (v0 — present iff the regenerated
+  fact `c06V0SkipRule` —, flag false), the
   no-combine rule for ungrouped Synchronization, `combineBindingContextForHook` (contiguous followers
   of the same hook and task type, stop condition, group compaction), hook outcome from a failure script.
 
@@ -162,11 +163,23 @@ structure St where
 def findHook (hooks : List Hook) (n : Nat) : Hook :=
   (hooks.find? (·.name == n)).getD { name := n, v1 := true, onStartup := none, kube := [], sched := false }
 
+/-- the rule "There were no Synchronization for v0 hooks, skip hook execution" of `taskHandleHookRun`
+(regenerated from operator.go) -/
+def v0RuleFact : Bool := Facts.c06V0SkipRule
+
+/-- what `HookConfigV0.ConvertAndCheck` leaves in `ExecuteHookOnSynchronization` of a v0 binding
+(regenerated from config_v0.go; a v0 configuration has no such option) -/
+def v0FlagFact : Bool := Facts.c06V0SyncFlag
+
+/-- the conversion of a v0 configuration: no groups, the flag is the converter's default -/
+def convertV0 (h : Hook) : Hook :=
+  if h.v1 then h else { h with kube := h.kube.map fun b => { b with group := 0, execSync := v0FlagFact } }
+
 /-- `taskHandleHookRun` up to the hook execution: (does the hook run, task after combine, queue after combine) -/
 def prepare (stop : Bool) (hooks : List Hook) (t : Task) (rest : List Task) : Bool × Task × List Task :=
   let hk := findHook hooks t.hook
   let isSync := t.isSync
-  let shouldRun := !(isSync && (!hk.v1 || !t.execSync))
+  let shouldRun := !(isSync && ((v0RuleFact && !hk.v1) || !t.execSync))
   if shouldRun && hk.v1 then
     -- "Do not combine Synchronizations without group"
     let shouldCombine := !(isSync && t.group == 0)
